@@ -306,3 +306,58 @@ def finish(prop, tier, seed, t0, proof, recs, errs, known_sigs, rule, samples, d
         prop, tier, proof['discharged'], proof['obligations'], evaluated, cov['traces_validated_against_impl'],
         len(prop_fail), len(known_seen), now() - t0))
     return 1 if violations else 0
+
+
+# --------------------------------------------------------------------------- generic check run
+
+def standard_run(prop, modules, gen_cases, tier, seed, replay, assumptions, rule, variant='plain',
+                 nontrivial=None, classify=None, timeout_s=20, extra_cov=None, post=None, env=None):
+    """regenerate -> prove/audit -> build driver + harness from the working tree -> run cases ->
+    verdict.  gen_cases(tier, seed, ctx) returns a list of Case; ctx is a dict with 'work' (a scratch
+    directory that is removed afterwards) and 'zdrv'."""
+    t0 = now()
+    regenerate()
+    proof = prove(modules)
+    if tier == 'thorough' and proof['ok']:
+        ok, out = leanchecker(modules)
+        proof['leanchecker'] = out
+        if not ok:
+            proof['ok'] = False; proof['broken'].append('leanchecker: ' + '; '.join(out))
+    drv_ok, drv_log = build_driver()
+    zdrv = B.build_exe(os.path.join(VERIF, 'harness', 'zdrv.c'), 'zdrv', variant=variant,
+                       extra_flags=['-I' + os.path.join(VERIF, 'harness')])
+    work = os.path.join(VERIF, '.cache', 'work-%s-%d' % (prop, os.getpid()))
+    shutil.rmtree(work, ignore_errors=True)
+    os.makedirs(work)
+    ctx = dict(work=work, zdrv=zdrv, tier=tier, seed=seed)
+    try:
+        if replay:
+            rp = json.load(open(replay))
+            cases = []
+            for name, hx in (rp.get('files') or {}).items():
+                open(os.path.join(work, name), 'wb').write(bytes.fromhex(hx))
+            for line in rp.get('ops', []):
+                i, _, op = line.partition(' ')
+                cases.append(Case(i, op.replace('@WORK@', work)))
+        else:
+            cases = gen_cases(tier, seed, ctx)
+        errs = []
+        if not drv_ok:
+            errs.append('driver build failed: ' + drv_log[-300:])
+        e = dict(os.environ)
+        e['ASAN_OPTIONS'] = 'allocator_may_return_null=1:detect_leaks=0:exitcode=99:abort_on_error=0'
+        e['UBSAN_OPTIONS'] = 'print_stacktrace=1:halt_on_error=1:exitcode=98'
+        if env: e.update(env)
+        recs, e2 = differential(cases, zdrv, work, files_env=e, timeout_s=timeout_s)
+        errs += e2
+        if post:
+            post(recs, ctx)
+    finally:
+        shutil.rmtree(work, ignore_errors=True)
+    dist = {}
+    for r in recs:
+        k = str(r['meta'].get('kind', '?')) + ':' + r['impl'].split(' ')[0]
+        dist[k] = dist.get(k, 0) + 1
+    samples = [dict(op=r['op'][:400], impl=r['impl'][:300], model=r['model'][:300]) for r in recs[:: max(1, len(recs) // 12)]][:12]
+    return finish(prop, tier, seed, t0, proof, recs, errs, load_known(prop), rule, samples, dist,
+                  assumptions, nontrivial=nontrivial, classify=classify, extra_cov=extra_cov)
